@@ -75,7 +75,9 @@ func (m *Model) AddCtor(inst string, f *u.Func, target int, step int) *Ctor {
 }
 
 func (m *Model) AddDeco(inst string, f *u.Func, scope int, step int) *Deco {
-	d := &Deco{Inst: inst, F: f, Scope: scope, P: f.PLeaves(), R: f.RLeaves(), Step: step}
+	g := *f // Name / Group / As are Provide options and do not apply to decorators
+	g.OptName, g.OptGroup, g.As, g.FlatN = "", "", nil, 0
+	d := &Deco{Inst: inst, F: f, Scope: scope, P: f.PLeaves(), R: g.RLeaves(), Step: step}
 	for _, r := range d.R {
 		d.Keys = append(d.Keys, DecoKey(r))
 	}
